@@ -170,7 +170,7 @@ def replay_edges(work, binp, edges, variant, nshards, sample=1.0):
     return {"trace": trace, "edges": edges, "replayed": agg["replayed"], "skipped": skipped, "variant": vname}
 
 
-def judge_chunked(work, trace, njvm, chunk=120000):
+def judge_chunked(work, trace, njvm, chunk=60000):
     """judge a long replay trace in pieces (every replay case is independent of the others);
     line numbers in the result refer to the whole trace"""
     from concurrent.futures import ThreadPoolExecutor
